@@ -241,7 +241,8 @@ char* SoPlex_getPrimalRationalString(void* soplex, int dim)
 
    so->getPrimalRational(primal);
 
-   for(int i = 0; i < dim; ++i)
+   /* the getter re-sizes the vector to the number of columns: never read beyond it */
+   for(int i = 0; i < dim && i < primal.dim(); ++i)
    {
       primalstring.append(primal[i].str());
       primalstring.append(" ");
@@ -505,7 +506,8 @@ void SoPlex_getLowerReal(void* soplex, double* lb, int dim)
 
    so->getLowerReal(lbvec);
 
-   for(int i = 0; i < dim; ++i)
+   /* the getter re-sizes the vector to the number of columns: never read beyond it */
+   for(int i = 0; i < dim && i < lbvec.dim(); ++i)
       lb[i] = lbvec[i];
 }
 
@@ -517,7 +519,8 @@ void SoPlex_getObjReal(void* soplex, double* obj, int dim)
 
    so->getObjReal(objvec);
 
-   for(int i = 0; i < dim; ++i)
+   /* the getter re-sizes the vector to the number of columns: never read beyond it */
+   for(int i = 0; i < dim && i < objvec.dim(); ++i)
       obj[i] = objvec[i];
 }
 
@@ -544,7 +547,8 @@ void SoPlex_getUpperReal(void* soplex, double* ub, int dim)
 
    so->getUpperReal(ubvec);
 
-   for(int i = 0; i < dim; ++i)
+   /* the getter re-sizes the vector to the number of columns: never read beyond it */
+   for(int i = 0; i < dim && i < ubvec.dim(); ++i)
       ub[i] = ubvec[i];
 }
 
